@@ -96,6 +96,9 @@ def scenarios(ctx):
             for end in ("silence", "eof"):
                 for ssl in (False, True):
                     scs.append(scenario(word, end, ssl))
+    if ctx.thorough():
+        for word in itertools.product(alpha, repeat=6):
+            scs.append(scenario(word, "eof", False))
     # a first fragment alone
     for word in (["H"], ["t", "H", "p"], ["H", "H"], ["U", "H", "q"]):
         for ssl in (False, True):
@@ -116,7 +119,7 @@ def scenarios(ctx):
         scs.append(scenario(word, "eof", False, plan={"on_message": "r", "on_error": "o" * k + "r"}))
     scs.append(scenario(word, "silence", False, plan={"on_message": "rr", "on_data": "or", "on_ping": "r"}))
     # random longer histories
-    n = 600 if ctx.thorough() else 150
+    n = 3000 if ctx.thorough() else 150
     for _ in range(n):
         word = [rnd.choice(alpha + ["H"]) for _ in range(rnd.randint(5, 20))]
         plan = {}
